@@ -4,59 +4,136 @@ C13 — Replies depend only on the request: stateless per-request version adapta
 Model   : lean/JRV/Model/ConfigHeap.lean (configurations as aliasable heap objects)
           lean/JRV/Model/ConfigHeapConc.lean (dispatcher threads with the statements of the version adaptation as
           atomic steps, interleaved arbitrarily on one shared heap; C13_concurrent*)
-Theorems: lean/JRV/Properties/C13.lean
-Tie     : extracted write footprint of the serve path and Config.copy structure (tools/extractors/footprint.py)
+Theorems: lean/JRV/Properties/C13.lean (+ C13Gen.lean: companions of the extracted facts)
+Tie     : extracted write footprint of the serve path (roots _marshaled_dispatch, do_POST, handle_jsonrpc; parameters fed
+          from shared state at some call site are shared), Config.copy structure and the configuration every
+          Fault/dump call is handed (tools/extractors/footprint.py)
           + correspondence: (a) reply forms of random request histories on one real dispatcher vs the model,
           (b) sequences of Config.copy() / mutations on real Config objects vs the heap model.
 Monitor : every reply of a history equals the reply of a *fresh* dispatcher to the same body (history freedom),
           has the form the property prescribes, both Config objects are unchanged field by field after every
-          request; the same bodies served from several threads at once give the same replies; copy independence.
+          request; the same bodies served from several threads at once give the same replies; one preemption at every
+          line the package executes while serving; the HTTP entry point (do_POST); copy independence.
+          Dispatchers are built from the registries of harness/servercases.py: plain functions, an instance with its own
+          `_dispatch`, a custom dispatch method (what do_POST passes for a handler with `_dispatch`), methods returning
+          values that cannot be serialised — so that every Fault/dump site of `_marshaled_single_dispatch` is executed
+          with 1.0 requests on a 2.0 server.
 """
 import json
+import os
+import re
+import sys
 import threading
 
 import impl
 import pyval
+import servercases as SC
 
 REQUIRED_THEOREMS = [
-    "C13_frame_entry", "C13_frame", "C13_history_free", "C13_form", "C13_copy_independent",
+    "C13_frame_entry", "C13_frame", "C13_history_free", "C13_form", "C13_form_reply", "C13_form_wire",
+    "C13_form_wire_needs_request_config", "C13_copy_independent",
     "C13_concurrent", "C13_concurrent_schedule", "C13_concurrent_progress", "C13_concurrent_needs_copy",
-    "C13_gen_sharedWrites", "C13_gen_versionStoreOnCopy", "C13_gen_copyDuplicates",
+    "C13_gen_sharedWrites", "C13_gen_versionStoreOnCopy", "C13_gen_copyDuplicates", "C13_gen_replyConfigSites",
 ]
 
 FIELDS = ("version", "content_type", "user_agent", "use_jsonclass", "serialize_method", "ignore_attribute")
+
+REGS = ["plain", "custom", "instdisp", "both", "customecho", "funcs"]
 
 
 def snapshot(cfg):
     return (tuple(getattr(cfg, f) for f in FIELDS),
             tuple(sorted((k, getattr(v, "__name__", repr(v))) for k, v in cfg.classes.items())),
             tuple(sorted((getattr(k, "__name__", repr(k)), getattr(v, "__name__", repr(v))) for k, v in cfg.serialize_handlers.items())),
-            type(cfg.classes).__name__ if False else None)
+            None)
 
 
-def make_dispatcher(version, cfg=None):
-    import jsonrpclib.SimpleJSONRPCServer as SRV
-    cfg = cfg or impl.jsonrpclib.config.Config(version=version)
-    d = SRV.SimpleJSONRPCDispatcher(config=cfg)
-    d.register_function(lambda *a, **k: [list(a), k], "echo")
-    d.register_function(lambda a, b=2: a + b, "add")
+class Disp(object):
+    """A real dispatcher (built from a servercases registry + a few functions of this module) and how to call it."""
 
-    def boom(*a):
-        raise ValueError("boom")
-    d.register_function(boom, "boom")
+    def __init__(self, version, reg="plain"):
+        desc = SC.REGISTRIES[reg] if reg != "plain" else {"funcs": [], "inst": None, "custom": None}
+        self.real = SC.Real(desc, version, True, "absent")       # use_jsonclass on, Bean in config.classes
+        self.disp = d = self.real.disp
+        self.cfg = self.real.cfg
+        self.custom = self.real.custom
+        self.version = version
+        self.reg = reg
+        d.register_function(lambda *a, **k: [list(a), k], "echo")
+        d.register_function(lambda a, b=2: a + b, "add")
 
-    def deny(*a):
-        # a method that answers with a Fault object it built itself (carrying the default configuration)
-        return impl.jsonrpclib.Fault(-32001, "denied")
-    d.register_function(deny, "deny")
-    return d, cfg
+        def boom(*a):
+            raise ValueError("boom")
+        d.register_function(boom, "boom")
+
+        def deny(*a):
+            # a method that answers with a Fault object it built itself (carrying the default configuration)
+            return impl.jsonrpclib.Fault(-32001, "denied")
+        d.register_function(deny, "deny")
+        # a result jsonrpclib.dump accepts but the JSON library rejects (tuple key): the _safe_jdumps site
+        d.register_function(lambda *a: {(1, 2): 3}, "tuplekey")
+        # a result jsonclass.dump rejects (its _serialize raises): the `except` arm after jsonrpclib.dump
+        d.register_function(lambda *a: SC.RaisingSerialize(), "unser")
+
+    def serve(self, text):
+        return self.disp._marshaled_dispatch(text, self.custom)
+
+    def post(self, text, content_type=None):
+        """do_POST through a fake connection: (status, body text, reply headers)."""
+        import io
+        import email.message
+        S = SC.S
+        data = text.encode("utf-8")
+        h = S.SimpleJSONRPCRequestHandler.__new__(S.SimpleJSONRPCRequestHandler)
+        srv = self.disp
+        srv.logRequests = False
+        h.server = srv
+        h.path = "/"
+        msg = email.message.Message()
+        msg["Content-Length"] = str(len(data))
+        if content_type is not None:
+            msg["Content-Type"] = content_type
+        h.headers = msg
+        h.rfile = io.BytesIO(data)
+        h.wfile = io.BytesIO()
+        h.request_version = "HTTP/1.1"
+        h.requestline = "POST / HTTP/1.1"
+        h.client_address = ("x", 0)
+        h.close_connection = True
+        status, headers = [], []
+        h.send_response = lambda code, message=None: status.append(code)
+        h.send_header = lambda k, v: headers.append((k, v))
+        h.end_headers = lambda: None
+        h.is_rpc_path_valid = lambda: True
+        h.decode_request_content = lambda d: d
+        if self.custom is not None:
+            h._dispatch = self.custom
+        h.do_POST()
+        return status, h.wfile.getvalue().decode("utf-8"), sorted((k.lower(), v) for k, v in headers if k.lower() != "content-length")
 
 
-def gen_entry(rng):
-    """(kind token for the model or None if the entry is not a dict, entry)"""
+def make_dispatcher(version, reg="plain"):
+    d = Disp(version, reg)
+    return d, d.cfg
+
+
+OWN_METHODS = ["echo", "add", "boom", "nope", "deny", "tuplekey", "unser"]
+GOOD_BEANS = [{"__jsonclass__": ["collections.OrderedDict", []]}, {"__jsonclass__": ["Bean", [3]]},
+              {"__jsonclass__": ["Bean", {"x": 1}], "y": 2}, {"__jsonclass__": ["collections.Counter", []]},
+              {"__jsonclass__": ["fractions.Fraction", [1, 3]]}]
+BAD_BEANS = [{"__jsonclass__": ["Nope", []]}, {"__jsonclass__": ["collections.NoSuch", []]}, {"__jsonclass__": ["", []]},
+             {"__jsonclass__": ["os.pa th", []]}, {"__jsonclass__": ["Bean", 5]}, {"__jsonclass__": ["nosuchmodule.K", []]}]
+MALFORMED = ["{", "[1,", "", "nul", "[]", "{}", "   ", "\"str\"", "5", "null", "[[]]", "{\"id\":1,", "[{}]x", "﻿{}", "0", "false"]
+
+
+def gen_entry(rng, reg="plain", bean=None):
+    """One entry of a request body (a dictionary mostly, sometimes another JSON value)."""
     r = rng.random()
-    method = rng.choice(["echo", "add", "boom", "nope", "deny"])
+    methods = OWN_METHODS if reg == "plain" or rng.random() < 0.4 else SC.METHODS[reg]
+    method = rng.choice(methods)
     params = rng.choice([[1], [1, 2], {"a": 1}, [], None])
+    if bean is not None:
+        params = rng.choice([[bean], {"a": bean}, [1, [bean]]])
     if r < 0.3:
         e = {"jsonrpc": "2.0", "id": rng.choice([1, "x", 0, 2.5]), "method": method}
     elif r < 0.55:
@@ -73,11 +150,30 @@ def gen_entry(rng):
         e = {"method": "echo"}                            # no version marker
     else:
         return rng.choice([5, "str", [], None, True])
-    if params is not None and "method" in e and rng.random() < 0.8:
+    if params is not None and "method" in e and (bean is not None or rng.random() < 0.8):
         e["params"] = params
     if rng.random() < 0.05:
         e["params"] = 7                                   # invalid params type
     return e
+
+
+def gen_body(rng, reg):
+    """(kind, text, body or None): kind 'entries' (every entry is looked at on its own), 'badbean' / 'malformed'
+    (the body as a whole is rejected by the parser/translator: answered once, from the server's configuration)."""
+    r = rng.random()
+    if r < 0.07:
+        return "malformed", rng.choice(MALFORMED), None
+    if r < 0.14:
+        bean = rng.choice(BAD_BEANS)
+        body = gen_entry(rng, reg, bean) if rng.random() < 0.6 else [gen_entry(rng, reg), gen_entry(rng, reg, bean)]
+        if "__jsonclass__" in json.dumps(body):
+            return "badbean", json.dumps(body), body
+    bean = rng.choice(GOOD_BEANS) if r < 0.32 else None
+    if rng.random() < 0.3:
+        body = [gen_entry(rng, reg, bean if i == 0 else None) for i in range(rng.randint(1, 4))]
+    else:
+        body = gen_entry(rng, reg, bean)
+    return "entries", json.dumps(body), body
 
 
 def classify(entry):
@@ -103,99 +199,178 @@ def reply_form(obj):
     return 20 if "jsonrpc" in obj else 10
 
 
+_ADDR = re.compile(r" at 0x[0-9a-fA-F]+")
+
+
+def loads_or_raw(text):
+    """Parsed reply (object addresses inside messages masked: `<Bean object at 0x…>` differs between any two runs)."""
+    if isinstance(text, str):
+        text = _ADDR.sub(" at 0x?", text)
+    try:
+        return json.loads(text or "null")
+    except ValueError:
+        return ("<not JSON>", text)
+
+
+class Stats(object):
+    def __init__(self):
+        self.invalid_no_jsonrpc_in_server_form = 0
+        self.body_level = 0
+        self.beans = 0
+        self.fault_sites = {}
+        self.sweep_skipped = 0
+        self.sweep_points = 0
+        self.sweep_functions = set()
+
+
+def note_site(stats, reg, entry, rep):
+    """Which reply-building site of the dispatcher answered (by code + message shape), for the evidence."""
+    err = rep.get("error") if isinstance(rep, dict) else None
+    if not isinstance(err, dict):
+        key = "dump(result)"
+    else:
+        msg = str(err.get("message"))
+        code = err.get("code")
+        if code == -32603 and msg.startswith("Server error:"):
+            key = "_method_exception_fault"
+        elif code == -32603 and ("not JSON serializable" in msg or "keys must be" in msg):
+            key = "_safe_jdumps"
+        elif code == -32603 and (reg in ("custom", "customecho") or msg.split(":")[0] in ("MyError", "ValueError", "KeyError", "TypeError", "AttributeError", "MyAttrError")) and not msg.startswith("Server error"):
+            key = "single_dispatch:except(dispatch raised or dump failed)"
+        else:
+            key = "Fault %s" % code
+    k = "%s/%s" % (key, "1.0-entry" if isinstance(entry, dict) and "jsonrpc" not in entry else "2.0-entry")
+    stats.fault_sites[k] = stats.fault_sites.get(k, 0) + 1
+
+
+def judge_forms(ctx, stats, version, reg, body, out):
+    """The form statement, entry by entry.  Returns (model tokens, forms) for the correspondence, or None."""
+    entries = body if isinstance(body, list) and body else [body]
+    parsed = loads_or_raw(out) if out else None
+    replies = parsed if isinstance(parsed, list) else ([parsed] if parsed is not None else [])
+    answered = [e for e in entries if not (classify(e) in ("v0", "v1") and is_notification(e))]
+    single = not (isinstance(body, list) and body)
+    if single and not (isinstance(body, dict) and body and replies):
+        return None
+    if not single and len(replies) != len(answered):
+        if isinstance(parsed, dict):
+            # the whole batch answered with one object: only legitimate for a body-level failure, which 'entries' bodies are not
+            ctx.violate({"version": version, "registry": reg, "body": json.dumps(body), "reply": out},
+                        "a batch of %d entries to answer got the single reply %s" % (len(answered), out), key="form")
+        return None
+    toks, fs = [], []
+    for e, rep in zip(answered if not single else [body], replies):
+        k = classify(e)
+        toks.append(k)
+        fs.append(reply_form(rep))
+        want_form = 10 if k == "v0" else (20 if version >= 2 else 10)
+        if k == "i" and isinstance(e, dict) and "jsonrpc" not in e and version >= 2 and reply_form(rep) == 20:
+            stats.invalid_no_jsonrpc_in_server_form += 1
+        note_site(stats, reg, e, rep)
+        if reply_form(rep) != want_form:
+            ctx.violate({"version": version, "registry": reg, "entry": e, "reply": rep, "body": json.dumps(body)},
+                        "entry answered in %s-form, expected %s-form" % (reply_form(rep), want_form), key="form")
+    return "[ " + " ".join(toks) + " ]", " ".join(str(f) for f in fs)
+
+
 def run(ctx):
-    J = impl.jsonrpclib.jsonrpc
     ctx.rule = ("random histories (length <= 40; thorough: more and longer) of request bodies mixing 1.0/2.0 calls, "
-                "notifications, batches, invalid and failing requests on ONE dispatcher per server version in {1.0, 2.0}; "
+                "notifications, batches, invalid and failing requests, __jsonclass__-bearing parameters (Config.classes non-empty), "
+                "untranslatable beans and malformed texts on ONE dispatcher per (server version in {1.0, 2.0}) x (registry: plain "
+                "functions / custom dispatch method / instance _dispatch / instance attributes / unserialisable results); "
                 "after every request: reply == reply of a fresh dispatcher, reply form, field-by-field snapshot of the server "
-                "Config and of config.DEFAULT; the same bodies again from 2-8 concurrent threads; random programs of "
-                "Config.copy()/mutations; distinct_nontrivial = distinct histories containing both request forms")
+                "Config and of config.DEFAULT; the same bodies again from 2-8 concurrent threads and through do_POST; one preemption "
+                "at every package line executed while serving; random programs of Config.copy()/mutations; "
+                "distinct_nontrivial = distinct histories containing both request forms")
     default_cfg = impl.jsonrpclib.config.DEFAULT
     default_before = snapshot(default_cfg)
+    stats = Stats()
     lines, impl_out = [], []
-    n_hist = ctx.budget(30, 400)
+    n_hist = ctx.budget(36, 400)
     for hi in range(n_hist):
-        version = ctx.rng.choice([1.0, 2.0])
-        disp, cfg = make_dispatcher(version)
+        version = [2.0, 1.0][(hi // len(REGS)) % 2] if hi < 2 * len(REGS) else ctx.rng.choice([1.0, 2.0])
+        reg = REGS[hi % len(REGS)]
+        disp, cfg = make_dispatcher(version, reg)
         before = snapshot(cfg)
-        bodies, tokens, forms = [], [], []
+        texts, tokens, forms = [], [], []
         for _ in range(ctx.rng.randint(1, 40 if not ctx.thorough else 80)):
-            if ctx.rng.random() < 0.3:
-                body = [gen_entry(ctx.rng) for _ in range(ctx.rng.randint(1, 4))]
-            else:
-                body = gen_entry(ctx.rng)
-            text = json.dumps(body)
-            out = disp._marshaled_dispatch(text)
-            fresh, _ = make_dispatcher(version)
-            want = fresh._marshaled_dispatch(text)
-            if json.loads(out or "null") != json.loads(want or "null"):
-                ctx.violate({"version": version, "history": [json.dumps(b) for b in bodies], "body": text},
-                            "reply %s differs from the reply of a fresh server %s" % (out, want), key="history-dependence")
+            kind, text, body = gen_body(ctx.rng, reg)
+            out = disp.serve(text)
+            fresh, _ = make_dispatcher(version, reg)
+            want = fresh.serve(text)
+            case = {"version": version, "registry": reg, "history": list(texts), "body": text}
+            if loads_or_raw(out) != loads_or_raw(want):
+                ctx.violate(case, "reply %s differs from the reply of a fresh server %s" % (out, want), key="history-dependence")
             for c, name, b4 in ((cfg, "server Config", before), (default_cfg, "config.DEFAULT", default_before)):
                 if snapshot(c) != b4:
-                    ctx.violate({"version": version, "history": [json.dumps(b) for b in bodies], "body": text},
-                                "%s changed while serving: %r -> %r" % (name, b4, snapshot(c)), key="config-changed")
-            # forms, entry by entry
-            entries = body if isinstance(body, list) and body else [body]
-            parsed = json.loads(out) if out else None
-            replies = parsed if isinstance(parsed, list) else ([parsed] if parsed is not None else [])
-            answered = [e for e in entries if not (classify(e) in ("v0", "v1") and is_notification(e))]
-            if isinstance(body, list) and body and len(replies) == len(answered):
-                toks, fs = [], []
-                for e, rep in zip(answered, replies):
-                    k = classify(e)
-                    toks.append(k)
-                    fs.append(reply_form(rep))
-                    want_form = 10 if k == "v0" else (20 if version >= 2 else 10)
-                    if reply_form(rep) != want_form:
-                        ctx.violate({"version": version, "entry": e, "reply": rep},
-                                    "entry answered in %s-form, expected %s-form" % (reply_form(rep), want_form), key="form")
-                tokens.append("[ " + " ".join(toks) + " ]")
-                forms.append(" ".join(str(f) for f in fs))
-            elif not isinstance(body, list) and body and isinstance(body, dict) and replies:
-                k = classify(body)
-                want_form = 10 if k == "v0" else (20 if version >= 2 else 10)
-                if reply_form(replies[0]) != want_form:
-                    ctx.violate({"version": version, "entry": body, "reply": replies[0]},
-                                "entry answered in %s-form, expected %s-form" % (reply_form(replies[0]), want_form), key="form")
-                tokens.append("[ %s ]" % k)
-                forms.append(str(reply_form(replies[0])))
-            bodies.append(body)
+                    ctx.violate(case, "%s changed while serving: %r -> %r" % (name, b4, snapshot(c)), key="config-changed")
+            if "__jsonclass__" in text:
+                stats.beans += 1
+            if kind == "entries":
+                tf = judge_forms(ctx, stats, version, reg, body, out)
+                if tf is not None:
+                    tokens.append(tf[0])
+                    forms.append(tf[1])
+            else:
+                # rejected as a whole by the parser / the bean translator: one reply, from the server's configuration
+                stats.body_level += 1
+                rep = loads_or_raw(out)
+                if isinstance(rep, dict):
+                    tokens.append("[ i ]")
+                    forms.append(str(reply_form(rep)))
+            texts.append(text)
         lines.append("c13hist %d %s" % (round(version * 10), " ".join(tokens)))
         impl_out.append(" | ".join(forms) + " ; srv=%d" % round(cfg.version * 10))
         both = any("v0" in t for t in tokens) and any("v1" in t for t in tokens)
-        ctx.count(case_repr={"version": version, "bodies": [json.dumps(b) for b in bodies[:6]], "forms": forms[:6]},
-                  nontrivial_key=("h", hi) if both else None, kind="history/v%s/len%d" % (version, len(bodies) // 10 * 10),
-                  n=len(bodies))
+        ctx.count(case_repr={"version": version, "registry": reg, "bodies": texts[:6], "forms": forms[:6]},
+                  nontrivial_key=("h", hi) if both else None,
+                  kind="history/v%s/%s/len%d" % (version, reg, len(texts) // 10 * 10), n=len(texts))
         # the same bodies concurrently on one dispatcher
         if hi % 3 == 0:
-            disp2, cfg2 = make_dispatcher(version)
-            texts = [json.dumps(b) for b in bodies]
+            disp2, cfg2 = make_dispatcher(version, reg)
             results = {}
-
-            def worker(idx):
-                for i in range(idx, len(texts), nthreads):
-                    results[i] = disp2._marshaled_dispatch(texts[i])
             nthreads = ctx.rng.randint(2, 8)
+
+            def worker(idx, disp2=disp2, texts=texts, results=results, nthreads=nthreads):
+                for i in range(idx, len(texts), nthreads):
+                    results[i] = disp2.serve(texts[i])
             ths = [threading.Thread(target=worker, args=(i,)) for i in range(nthreads)]
             for t in ths:
                 t.start()
             for t in ths:
                 t.join(30)
             for i, text in enumerate(texts):
-                fresh, _ = make_dispatcher(version)
-                want = fresh._marshaled_dispatch(text)
-                if json.loads(results.get(i) or "null") != json.loads(want or "null"):
-                    ctx.violate({"version": version, "body": text, "threads": nthreads},
+                fresh, _ = make_dispatcher(version, reg)
+                want = fresh.serve(text)
+                if loads_or_raw(results.get(i)) != loads_or_raw(want):
+                    ctx.violate({"version": version, "registry": reg, "body": text, "threads": nthreads},
                                 "concurrent reply %s differs from the sequential reply %s" % (results.get(i), want),
                                 key="concurrent")
             if snapshot(cfg2) != before:
-                ctx.violate({"version": version}, "server Config changed under concurrent serving", key="config-changed")
+                ctx.violate({"version": version, "registry": reg}, "server Config changed under concurrent serving", key="config-changed")
             ctx.count(kind="concurrent/%d" % nthreads)
+        # the same bodies over the HTTP entry point, with the content types a client may send
+        if hi % 2 == 0:
+            disp3, cfg3 = make_dispatcher(version, reg)
+            for i, text in enumerate(texts[:12]):
+                ct = ["application/json", None, "text/plain", "application/json-rpc", "application/jsonrequest; charset=utf-8"][(hi + i) % 5]
+                got = disp3.post(text, ct)
+                fresh, _ = make_dispatcher(version, reg)
+                want = fresh.post(text, ct)
+                case = {"version": version, "registry": reg, "via": "do_POST", "history": texts[:i], "body": text,
+                        "content_types": [["application/json", None, "text/plain", "application/json-rpc",
+                                           "application/jsonrequest; charset=utf-8"][(hi + k) % 5] for k in range(i + 1)]}
+                if (got[0], loads_or_raw(got[1]), got[2]) != (want[0], loads_or_raw(want[1]), want[2]):
+                    ctx.violate(case, "do_POST answered %r after this history, a fresh server answers %r" % (got, want),
+                                key="history-dependence")
+                if snapshot(cfg3) != before or snapshot(default_cfg) != default_before:
+                    ctx.violate(case, "a Config object changed while serving over do_POST: %r -> %r" % (before, snapshot(cfg3)),
+                                key="config-changed")
+                ctx.count(kind="do_POST/v%s" % version)
 
-    # ---- one preemption at every source line of the per-request dispatch (line-granular interleavings)
+    # ---- one preemption at every package line executed while serving (line-granular interleavings)
     for version in (2.0, 1.0):
-        preemption_sweep(ctx, version, default_cfg, default_before)
+        preemption_sweep(ctx, stats, version, default_cfg, default_before)
 
     # ---- Config.copy programs
     class K1(object):
@@ -279,7 +454,24 @@ def run(ctx):
         if " ".join(mo.split()) != " ".join(io_.split()):
             ctx.disagree(ln[:500], io_[:500], mo[:500], component=ln.split(" ")[0])
     ctx.traces_validated += len(lines)
-    ctx.assumptions.append("the footprint classifies a name bound to a call result as request-local (callee stores are scanned on their own); getattr results are treated as shared")
+    fp = (ctx.facts.get("servePathSharedWrites") or {}) if isinstance(ctx.facts.get("servePathSharedWrites"), dict) else {}
+    scanned = set(f.split(".", 1)[1] for f in fp.get("scanned_functions", []) if not f.endswith("__init__"))
+    ctx.extra["invalid_entries_without_jsonrpc_answered_in_server_form"] = stats.invalid_no_jsonrpc_in_server_form
+    ctx.extra["bodies_rejected_as_a_whole"] = stats.body_level
+    ctx.extra["bodies_with_jsonclass"] = stats.beans
+    ctx.extra["reply_sites_exercised"] = dict(sorted(stats.fault_sites.items()))
+    ctx.extra["sweep_pause_points"] = stats.sweep_points
+    ctx.extra["sweep_cases_skipped"] = stats.sweep_skipped
+    ctx.extra["sweep_functions_paused_in"] = sorted(stats.sweep_functions)
+    ctx.extra["footprint_functions_never_paused_in"] = sorted(scanned - stats.sweep_functions)
+    ctx.assumptions.append("the footprint classifies a name bound to a call result as request-local (callee stores are scanned on their own); "
+                           "getattr results, names also bound to shared expressions, and parameters that some call site on the serve path "
+                           "feeds from self.<attr>/module globals/non-literal defaults are shared")
+    ctx.assumptions.append("reading of C13 (DESIGN.md section 5): an entry that fails validation — e.g. {\"id\":4,\"method\":5} without \"jsonrpc\" — and "
+                           "a body rejected as a whole (parse error, untranslatable bean, empty body) are answered in the SERVER's form, also on a "
+                           "2.0 server; 'answered in 1.0 form' is demanded of validated entries only.  This run met %d invalid entries without "
+                           "\"jsonrpc\" answered in 2.0 form and %d bodies rejected as a whole (counted in coverage)"
+                           % (stats.invalid_no_jsonrpc_in_server_form, stats.body_level))
 
 
 SWEEP_BODIES = [
@@ -287,76 +479,128 @@ SWEEP_BODIES = [
     {"jsonrpc": "2.0", "id": 2, "method": "add", "params": [1, 2]},    # 2.0 call
     {"id": 3, "method": "boom", "params": []},                         # failing 1.0 call
     {"jsonrpc": "2.0", "id": 4, "method": "deny", "params": []},       # 2.0 call answered with the method's own Fault
+    {"id": 5, "method": "echo", "params": [{"__jsonclass__": ["collections.OrderedDict", []]}]},   # 1.0 call carrying a bean
+    [{"id": 6, "method": "unser"}, {"jsonrpc": "2.0", "id": 7, "method": "tuplekey"}],             # unserialisable results
 ]
 
 
-def preemption_sweep(ctx, version, default_cfg, default_before):
+def _package_dir():
+    return os.path.dirname(os.path.abspath(impl.jsonrpclib.__file__)) + os.sep
+
+
+def coverage_points(version, text, reg="plain"):
+    """The (code object, line) pairs of package code executed while a fresh dispatcher serves `text`, in first-hit order."""
+    pkg = _package_dir()
+    disp, _ = make_dispatcher(version, reg)
+    seen, order = set(), []
+
+    def tracer(frame, event, arg):
+        if not frame.f_code.co_filename.startswith(pkg):
+            return None
+
+        def local(frame, event, arg):
+            if event == "line":
+                k = (frame.f_code, frame.f_lineno)
+                if k not in seen:
+                    seen.add(k)
+                    order.append(k)
+            return local
+        return local
+
+    def go():
+        sys.settrace(tracer)
+        try:
+            disp.serve(text)
+        finally:
+            sys.settrace(None)
+    th = threading.Thread(target=go)
+    th.start()
+    th.join(60)
+    return order
+
+
+def preemption_sweep(ctx, stats, version, default_cfg, default_before):
     """
-    Thread A serves body a and is paused when it reaches source line L of _marshaled_single_dispatch (every
-    executable line in turn); thread B then serves body b to completion on the same dispatcher; A resumes.
-    Both replies must equal the replies of a fresh server, and both Config objects must be unchanged.
+    Thread A serves body a and is paused when it first reaches a source line L — every line of the jsonrpclib package
+    that serving a executes, in every function (loads, validation, version adaptation and helpers it calls, dispatch,
+    Fault/Payload construction, dump), found by a coverage run; thread B then serves body b to completion on the same
+    dispatcher; A resumes.  Both replies must equal the replies of a fresh server, and both Config objects must be
+    unchanged.  A case whose pause point is not reached (possible only under extreme load) is counted, not hidden.
     """
-    import sys as _sys
-    import jsonrpclib.SimpleJSONRPCServer as SRV
-    code = SRV.SimpleJSONRPCDispatcher._marshaled_single_dispatch.__code__
-    lines = sorted({ln for (_s, _e, ln) in code.co_lines() if ln})
     pairs = [(a, b) for a in range(len(SWEEP_BODIES)) for b in range(len(SWEEP_BODIES))]
     if not ctx.thorough:
-        pairs = [(0, 0), (0, 1), (1, 0), (2, 0), (0, 3)]
-    for (ia, ib) in pairs:
+        pairs = [(0, 0), (0, 1), (1, 0), (2, 0), (0, 3), (4, 0), (5, 1)]
+    regs = ["plain", "custom", "instdisp"] if ctx.thorough else ["plain"]
+    pkg = _package_dir()
+    cov = {}
+    for (reg, (ia, ib)) in [(r, p) for r in regs for p in pairs]:
         ta, tb = json.dumps(SWEEP_BODIES[ia]), json.dumps(SWEEP_BODIES[ib])
-        fresh, _ = make_dispatcher(version)
-        want_a = json.loads(fresh._marshaled_dispatch(ta) or "null")
-        fresh, _ = make_dispatcher(version)
-        want_b = json.loads(fresh._marshaled_dispatch(tb) or "null")
-        for pause_line in lines:
-            disp, cfg = make_dispatcher(version)
+        fresh, _ = make_dispatcher(version, reg)
+        want_a = loads_or_raw(fresh.serve(ta))
+        fresh, _ = make_dispatcher(version, reg)
+        want_b = loads_or_raw(fresh.serve(tb))
+        if (reg, ia) not in cov:
+            cov[(reg, ia)] = coverage_points(version, ta, reg)
+        points = cov[(reg, ia)]
+        if not ctx.thorough and ia not in (0,):
+            # quick tier: every line for the 1.0 call; for the other paused bodies the lines of the server, config and
+            # jsonclass modules (where configurations are read, copied and could be cached)
+            points = [p for p in points if os.path.basename(p[0].co_filename) in ("SimpleJSONRPCServer.py", "config.py", "jsonclass.py")]
+        for (code, pause_line) in points:
+            stats.sweep_points += 1
+            disp, cfg = make_dispatcher(version, reg)
             before = snapshot(cfg)
-            paused, resume = threading.Event(), threading.Event()
+            paused, resume, finished = threading.Event(), threading.Event(), threading.Event()
             out = {}
 
-            def tracer(frame, event, arg):
-                if frame.f_code is code:
-                    def local(frame, event, arg):
-                        if event == "line" and frame.f_lineno == pause_line and not paused.is_set():
-                            paused.set()
-                            resume.wait(5)
-                        return local
-                    return local
-                return None
+            def tracer(frame, event, arg, code=code, pause_line=pause_line, paused=paused, resume=resume):
+                if not frame.f_code.co_filename.startswith(pkg):
+                    return None
+                if frame.f_code is not code:
+                    return None
 
-            def run_a():
-                _sys.settrace(tracer)
+                def local(frame, event, arg):
+                    if event == "line" and frame.f_lineno == pause_line and not paused.is_set():
+                        paused.set()
+                        resume.wait(30)
+                    return local
+                return local
+
+            def run_a(disp=disp, out=out, tracer=tracer, paused=paused, finished=finished):
+                sys.settrace(tracer)
                 try:
-                    out["a"] = disp._marshaled_dispatch(ta)
+                    out["a"] = disp.serve(ta)
                 finally:
-                    _sys.settrace(None)
+                    sys.settrace(None)
+                    finished.set()
+                    paused.set()
 
             th = threading.Thread(target=run_a)
             th.daemon = True
             th.start()
-            # wait until A is paused at the line, or has finished without reaching it
-            for _ in range(4000):
-                if paused.is_set() or not th.is_alive():
-                    break
-                th.join(0.0005)
-            hit = paused.is_set()
-            if hit and th.is_alive():
-                out["b"] = disp._marshaled_dispatch(tb)
+            paused.wait(30)
+            hit = paused.is_set() and not finished.is_set()
+            if hit:
+                out["b"] = disp.serve(tb)
             resume.set()
-            th.join(5)
-            if not hit or "b" not in out:
+            th.join(30)
+            if not hit or "b" not in out or "a" not in out:
+                stats.sweep_skipped += 1
+                ctx.count(kind="preemption-skipped")
                 continue
-            got_a, got_b = json.loads(out.get("a") or "null"), json.loads(out["b"] or "null")
-            case = {"version": version, "paused_thread_body": ta, "paused_at_line": pause_line - code.co_firstlineno,
-                    "other_thread_body": tb}
+            fname = code.co_qualname if hasattr(code, "co_qualname") else code.co_name
+            stats.sweep_functions.add(fname)
+            got_a, got_b = loads_or_raw(out.get("a")), loads_or_raw(out["b"])
+            case = {"version": version, "registry": reg, "paused_thread_body": ta, "paused_in": fname,
+                    "paused_at_line": pause_line - code.co_firstlineno, "other_thread_body": tb}
             if got_a != want_a or got_b != want_b:
                 ctx.violate(case, "interleaved replies %s / %s differ from the sequential replies %s / %s"
                             % (json.dumps(got_a), json.dumps(got_b), json.dumps(want_a), json.dumps(want_b)), key="interleaving")
             if snapshot(cfg) != before or snapshot(default_cfg) != default_before:
                 ctx.violate(case, "a Config object changed under interleaved serving", key="config-changed")
-            ctx.count(case_repr=case if pause_line == lines[len(lines) // 2] else None,
-                      nontrivial_key=("sweep", version, ia, ib, pause_line), kind="preemption/v%s" % version)
+            ctx.count(case_repr=case if (ia, ib) == (0, 0) and pause_line == points[len(points) // 2][1] else None,
+                      nontrivial_key=("sweep", version, reg, ia, ib, fname, pause_line - code.co_firstlineno),
+                      kind="preemption/v%s" % version)
 
 
 def ordered(d, vname, kname):
@@ -367,20 +611,80 @@ def ordered(d, vname, kname):
 def replay(payload):
     case = payload.get("case", {})
     print(json.dumps(case, indent=1, default=repr)[:3000])
-    if "history" in case:
-        version = case["version"]
-        disp, cfg = make_dispatcher(version)
-        before = snapshot(cfg)
-        for t in case["history"]:
-            disp._marshaled_dispatch(t)
-        out = disp._marshaled_dispatch(case["body"])
-        fresh, _ = make_dispatcher(version)
-        want = fresh._marshaled_dispatch(case["body"])
-        print("after history:", out)
+    version = case.get("version", 2.0)
+    reg = case.get("registry", "plain")
+    default_cfg = impl.jsonrpclib.config.DEFAULT
+    if "history" in case and case.get("via") == "do_POST":
+        cts = case.get("content_types") or [None] * (len(case["history"]) + 1)
+        disp, cfg = make_dispatcher(version, reg)
+        before, dbefore = snapshot(cfg), snapshot(default_cfg)
+        for t, ct in zip(case["history"], cts):
+            disp.post(t, ct)
+        got = disp.post(case["body"], cts[len(case["history"])])
+        fresh, _ = make_dispatcher(version, reg)
+        want = fresh.post(case["body"], cts[len(case["history"])])
+        print("after history:", got)
         print("fresh server :", want)
         print("config before/after:", before, snapshot(cfg))
-        if json.loads(out or "null") != json.loads(want or "null") or snapshot(cfg) != before:
+        if got != want or snapshot(cfg) != before or snapshot(default_cfg) != dbefore:
             print("VIOLATION reproduced")
             return 1
         return 0
+    if "history" in case:
+        disp, cfg = make_dispatcher(version, reg)
+        before, dbefore = snapshot(cfg), snapshot(default_cfg)
+        for t in case["history"]:
+            disp.serve(t)
+        out = disp.serve(case["body"])
+        fresh, _ = make_dispatcher(version, reg)
+        want = fresh.serve(case["body"])
+        print("after history:", out)
+        print("fresh server :", want)
+        print("config before/after:", before, snapshot(cfg))
+        print("config.DEFAULT before/after:", dbefore, snapshot(default_cfg))
+        if loads_or_raw(out) != loads_or_raw(want) or snapshot(cfg) != before or snapshot(default_cfg) != dbefore:
+            print("VIOLATION reproduced")
+            return 1
+        return 0
+    if "entry" in case:
+        disp, cfg = make_dispatcher(version, reg)
+        text = case.get("body") or json.dumps(case["entry"])
+        out = disp.serve(text)
+        print("request:", text)
+        print("reply  :", out)
+
+        class _C(object):
+            hits = []
+
+            def violate(self, c, detail, key=None):
+                self.hits.append(detail)
+        c = _C()
+        judge_forms(c, Stats(), version, reg, json.loads(text), out)
+        for h in c.hits:
+            print("VIOLATION reproduced:", h)
+        return 1 if c.hits else 0
+    if "paused_thread_body" in case:
+        class _C(object):
+            thorough = True
+            hits = []
+
+            def violate(self, c, detail, key=None):
+                if c.get("paused_in") == case.get("paused_in") and c.get("paused_at_line") == case.get("paused_at_line"):
+                    self.hits.append(detail)
+
+            def count(self, *a, **k):
+                pass
+        c = _C()
+        bodies = [json.dumps(b) for b in SWEEP_BODIES]
+        global SWEEP_BODIES_REPLAY
+        ia, ib = bodies.index(case["paused_thread_body"]), bodies.index(case["other_thread_body"])
+        saved = list(SWEEP_BODIES)
+        try:
+            SWEEP_BODIES[:] = [saved[ia], saved[ib]]
+            preemption_sweep(c, Stats(), version, default_cfg, snapshot(default_cfg))
+        finally:
+            SWEEP_BODIES[:] = saved
+        for h in c.hits[:3]:
+            print("VIOLATION reproduced:", h)
+        return 1 if c.hits else 0
     return 2
